@@ -760,17 +760,17 @@ class FieldHistory(History):
 
 SUBCHECKS = [
     SubCheck("RequestMachine_nojit", history=RequestHistory, mode="nojit",
-             budget={"quick": 480, "thorough": 20000}, shards={"quick": 8, "thorough": 16},
+             budget={"quick": 480, "thorough": 8000}, shards={"quick": 8, "thorough": 16},
              steps={"quick": 10, "thorough": 14}, time_limit={"quick": 240, "thorough": 1500},
              rule="non-trivial = two requests of the history share an equal grid (or are both expressions) and "
                   "differ in exactly one other attribute"),
     SubCheck("FieldMachine_nojit", history=FieldHistory, mode="nojit",
-             budget={"quick": 400, "thorough": 10000}, shards={"quick": 4, "thorough": 12},
+             budget={"quick": 400, "thorough": 5000}, shards={"quick": 4, "thorough": 12},
              steps={"quick": 12, "thorough": 16}, time_limit={"quick": 240, "thorough": 1500},
              rule="non-trivial = an interpolation of a field whose data array was re-linked (collection, dtype "
                   "change) earlier in the history"),
     SubCheck("RequestMachine_jit", history=RequestHistory, mode="jit",
-             budget={"quick": 8, "thorough": 300}, shards={"quick": 4, "thorough": 16},
+             budget={"quick": 8, "thorough": 160}, shards={"quick": 4, "thorough": 16},
              steps={"quick": 3, "thorough": 4}, time_limit={"quick": 140, "thorough": 1500},
              rule="as RequestMachine_nojit, with real compilation"),
 ]
